@@ -202,6 +202,29 @@ def regroup(which):
     return Game("regroup(z)", [PR, PR, PR, PR], [[(1, 1)], [(1, 2)], [(0.5, 3), (0.5, 2)], [(1, 3)]], [3], [0, 2, 1, 0])
 
 
+def paid_final():
+    """a rewarded final state that is not absorbing (it moves on to a reward-free sink)"""
+    return Game("paid_final", [P1, PR, PR, PR, PR, PR],
+                [[("a", 1), ("b", 2)], [(0.5, 3), (0.5, 4)], [(0.25, 3), (0.75, 4)], [(1, 5)], [(1, 4)], [(1, 5)]], [3],
+                [1, 2, 1, 4, 0, 0], stopping=False)
+
+
+def orphans(order=0):
+    """a chain of chance / Player 2 states that nothing points at once Player 1 is restricted to its
+    reachability-optimal action; `order` varies where the chain sits in the numbering"""
+    # abstract states: s0 P1 [a->good, b->c1]; good PR -> F/D ; c1 P2 -> c2 ; c2 PR -> c3 ; c3 PR -> (F, D) worse odds
+    names = {0: ["s0", "good", "c1", "c2", "c3", "F", "D"], 1: ["s0", "c3", "c2", "c1", "good", "F", "D"],
+             2: ["s0", "c2", "good", "c3", "c1", "D", "F"]}[order]
+    idx = {n: i for i, n in enumerate(names)}
+    spec = {"s0": (P1, 0, [("a", "good"), ("b", "c1")]), "good": (PR, SYM, [(0.75, "F"), (0.25, "D")]),
+            "c1": (P2, 1, [("x", "c2")]), "c2": (PR, 2, [(1, "c3")]), "c3": (PR, SYM, [(0.25, "F"), (0.75, "D")]),
+            "F": (PR, 0, [(1, "F")]), "D": (PR, 0, [(1, "D")])}
+    pl = [spec[n][0] for n in names]
+    rw = [spec[n][1] for n in names]
+    tl = [[(x, idx[t]) for x, t in spec[n][2]] for n in names]
+    return Game("orphans(%d)" % order, pl, tl, [idx["F"]], rw)
+
+
 def slow_chain():
     """KF-1: self-loop of probability 1-1e-7; value iteration stops far from the value"""
     return Game("slow_chain", [PR, PR], [[(1 - 1e-7, 0), (1e-7, 1)], [(1, 1)]], [1], [0, 0])
